@@ -1,5 +1,5 @@
 /-
-  FalconProofs.C20.Lemmas — the one helper lemma of property C20 (everything else is kernel evaluation).
+  FalconProofs.C20.Lemmas — the two helper lemmas of property C20 (everything else is kernel evaluation).
 -/
 import FalconModel.Abi
 
@@ -10,5 +10,10 @@ open Falcon.Abi
 theorem argsIntThenFp_of_inAbiOrder {d : ArchDesc} {a : AbiSpec} (h : a.fpArgs = [])
     (h' : ArgsInAbiOrder d a) : ArgsIntThenFp d a := by
   unfold ArgsIntThenFp; rw [h, List.append_nil]; exact h'
+
+/-- the same for the answers of `argument_type` -/
+theorem argTypesIntThenFp_of_abi {d : ArchDesc} {a : AbiSpec} (h : a.fpArgs = [])
+    (h' : ArgTypesAbi d a) : ArgTypesIntThenFp d a := by
+  unfold ArgTypesIntThenFp; rw [h, List.append_nil]; exact h'
 
 end Falcon.C20
